@@ -195,7 +195,10 @@ def c02(case, trace, settled=False):
                 ref = cur_before if cur_before is not None else (trace[i - 1]["pending"] if i > 0 else None)
                 trk = dict(before_tl).get(ref)
                 if trk is None:
-                    trk = before_tl[0][1] if before_tl else None
+                    # nothing was current: the track the seek is applied to is the one play()
+                    # selects first (the head of the shuffle order in random mode) - the first
+                    # track the backend was asked for during the call
+                    trk = t["attempts"][0][0] if t["attempts"] else None
                 ln = case["lens"][trk] if trk is not None else None
                 if ln is None or t["op"][1] > ln or t["op"][1] < 0:
                     in_scope = False      # a seek outside the track
@@ -343,32 +346,32 @@ def _random_pass(case, trace):
             if name == "tracklist_changed":
                 seen = set()
             elif name == "track_playback_started":
-                x = kw["tl_track"].tlid
-                kind = req[1] if req is not None and req[0] == x else "explicit"
-                if seen is None:
-                    continue
-                if kind != "auto":
-                    seen.add(x)
-                elif x in seen:
-                    if set(tl_before) <= seen or set(y for y, _ in t["tl"]) <= seen:
-                        seen = {x}
+                if seen is not None:
+                    seen.add(kw["tl_track"].tlid)
+        x = t["pending"]
+        if x is not None and (q is None or x != q["pending"] or k in ("play", "next", "previous", "atf", "load")):
+            if k == "load" or (k == "play" and len(t["op"]) > 1 and t["op"][1] == x):
+                req = (x, "explicit")
+            elif q is not None and x == q["pending"] and req is not None and req[0] == x:
+                pass
+            elif q is not None and x == q["current"] and (k not in ("next", "atf") or (k == "atf" and t["modes"][3])):
+                # play()/seek()/previous() start the current entry again; so does the end of the
+                # track under single+repeat.  next() and the end of a track otherwise never aim
+                # at the current entry: when they select it, it is the head of the order
+                req = (x, "restart")
+            elif k in ("play", "next", "atf", "seek"):
+                req = (x, "auto")
+                # the player's own selection: the head of the order it drew; an entry started
+                # since then has left that order, so it can be selected again only from a new
+                # order, which is drawn only when the old one is used up
+                if seen is not None and x in seen and not t["exc"] and not t["diverged"]:
+                    if set(tl_before) <= seen:
+                        seen = set()
                     else:
                         yield ("random_once_per_pass", {"what": "revisit"},
                                f"random: entry {x} was selected again although entries "
                                f"{sorted(set(tl_before) - seen)} of this pass have not been played", i)
                         seen = None
-                else:
-                    seen.add(x)
-        x = t["pending"]
-        if x is not None and (q is None or x != q["pending"] or k in ("play", "next", "previous", "atf", "load")):
-            if k == "load" or (k == "play" and len(t["op"]) > 1 and t["op"][1] == x):
-                req = (x, "explicit")
-            elif q is not None and x == q["current"]:
-                req = (x, "restart")
-            elif q is not None and x == q["pending"] and req is not None and req[0] == x:
-                pass
-            elif k in ("play", "next", "atf"):
-                req = (x, "auto")
             else:
                 req = (x, "explicit")
         if k == "setmode" and t["op"][1] == 1 and not t["exc"]:
